@@ -295,7 +295,8 @@ def check_byte_xor(ctx, rule, P):
             if (r.op == "bin" and r.a[0] == "BitXor") or (r.op == "call" and B.cname(r) == "BitXor::bitxor" and len(r.a[1]) == 2):
                 # collected, or handed as a whole to `extend` / `from_iter` of the result vector
                 ok_map = any(s.callee[0] == "Iterator::map" for s in ev.sites.values()) and any(s.callee[0] in ("Iterator::collect", "Extend::extend", "Vec::<T, A>::extend", "FromIterator::from_iter", "Vec::<T>::from_iter") for s in ev.sites.values())
-    zips = [s for s in ev.sites.values() if s.callee[0] == "Iterator::zip"]
+    # (`a.iter().zip(b)` or the free function `core::iter::zip(a, b)`)
+    zips = [s for s in ev.sites.values() if s.callee[0] == "Iterator::zip" or (s.callee[0].split("::")[-1] == "zip" and s.callee[0].split("::")[0] in ("core", "std", "iter") and len(s.args) == 2)]
     both = False
     if zips:
         roots = {x.a[1] for a in zips[0].args for x in subterms(a) if x.op == "param"}
